@@ -1,4 +1,5 @@
 import EV.Driver.Util
+import EV.Gen.Consts
 namespace EV.Driver.C01
 open EV EV.Driver EV.Codec
 
@@ -26,7 +27,7 @@ def decOp : Handler
     | "issuance" => decReport (AssetIssuance.dec P) AssetIssuance.enc (fun i => s!" {i.isNull}") bs
     | "outpoint" => decReport OutPoint.dec OutPoint.enc (fun o => s!" {o.vout}") bs
     | "script" => decReport bytesVec encBytesVec noExtra bs
-    | "locktime" => decReport (le 4) (encLe 4) (fun n => s!" {n}") bs
+    | "locktime" => decReport (le 4) (encLe 4) (fun n => s!" {n} {if n < EV.Gen.lockTimeThreshold then "height" else "time"}") bs
     | "params" => decReport Params.dec Params.enc noExtra bs
     | "header" => decReport BlockHeader.dec BlockHeader.enc (fun h => s!" {h.version} {h.ext.isDynafed}") bs
     | "block" => decReport (Block.dec P) Block.enc (fun b => s!" {b.txdata.length}") bs
